@@ -129,6 +129,13 @@ class ListProxy(list, ContainerValueMixin):
         )
 
     def _get_item_position(self, item: Any) -> str:
+        if isinstance(item, Config):
+            # configurations are located by identity: config types compare equal by content
+            for pos, other in enumerate(self):
+                if other is item:
+                    return str(pos)
+            return str(len(self))
+
         try:
             return str(self.index(item))
         except:  # noqa: E722
